@@ -41,10 +41,12 @@ class Node(object):
         rounds = 0
         while True:
             rounds += 1
-            if rounds > 64:
-                # variables defined in terms of each other never settle
-                raise SyntaxError('Recursive variable definition')
             tokens = list(utility.flatten(tokens))
+            if rounds > 64 or len(tokens) > 65536:
+                # variables defined in terms of each other never settle; when a
+                # definition mentions the others more than once the list also
+                # grows with every round
+                raise SyntaxError('Recursive variable definition')
             done = True
             if any(t for t in tokens if hasattr(t, 'parse')):
                 tokens = [
